@@ -46,6 +46,7 @@ type Loaded struct {
 }
 
 type LemmaInfo struct {
+	Linear bool // canonical linear sums while this target is executed
 	Tier string // "thorough": run in the thorough tier only
 	Name  string
 	Props []string
@@ -921,6 +922,9 @@ func (p *Loaded) bindSpecs() {
 								li.SplitParam = fs[0]
 								fmt.Sscanf(fs[1], "%d..%d", &li.SplitLo, &li.SplitHi)
 							}
+						}
+						if strings.HasPrefix(t, "simplify:") && strings.TrimSpace(strings.TrimPrefix(t, "simplify:")) == "linear" {
+							li.Linear = true
 						}
 						if strings.HasPrefix(t, "tier:") {
 							li.Tier = strings.TrimSpace(strings.TrimPrefix(t, "tier:"))
